@@ -1135,13 +1135,19 @@ def check_c06(tier, seed, log=print):
                 if re.search(r'fn\s+state\d+', code) or 'match state' not in code or 'loop {' not in code.replace('loop{', 'loop {'):
                     run.violation('sm-shape', dict(definition=srcs_acc[k], what='state-machine output defines/calls per-state functions or is not a single loop over the state enum'),
                                   key='smshape|' + srcs_acc[k])
+                # frame model (Stack.lean): a transition of the state machine is `state = ..; continue;`, never a call that hands on
+                # (lex, offset, context) - the only function taking that triple is `_get_action`
+                callees = set(re.findall(r'(\w+)\s*\(\s*\$?lex\s*,\s*\$?offset\s*,\s*\$?context\s*\)', code)) - {'_get_action'}
+                if callees:
+                    run.violation('sm-shape', dict(definition=srcs_acc[k], callees=sorted(callees), what='state-machine output hands (lex, offset, context) to a function other than _get_action: a transition or restart rendered as a call costs a frame (Stack.callCost), the bound lexS_sm_peak does not describe this output'),
+                                  key='smcall|' + srcs_acc[k])
         sc['sm_outputs_scanned'] = nsm
     nontriv = {(k[0], k[2]) for k, v in (streams_of(r, 'tail') or {}).items() if v.count(':') >= 2}
     run.coverage.update(dict(evaluations=n, distinct_nontrivial=len(nontriv),
                              rule='every request (ordinary, partial, and trace mode in the thorough tier) run on the tail-call and the state-machine build of the same definitions and compared verbatim, callbacks included (their invocations are visible through skips, errors and bumps); non-trivial = stream with >= 2 items',
                              samples=[dict(pairs=pairs)], stack=sc,
                              model_vs_impl_disagreements=dis, impl_vs_oracle_failures=len(fails)))
-    run.assumptions += ['stack usage of the compiled state-machine lexer is a property of the artefact: it is tested (long inputs on a small stack, and the emitted body contains no call to an emitted state function), not proved',
+    run.assumptions += ['stack usage: proved for the frame-counting interpreter (Stack.lean: lexS_sm_peak, at most three frames for every graph, input and callback table; lexS_fst: it is the interpreter tied to the compiled lexers); what a frame costs in the compiled artefact (bytes, inlining) is rustc\'s: tied by the shape of the emitted text (transitions are `continue`, nothing but _get_action takes (lex, offset, context)), by the stack address seen by every callback invocation (constant in the state-machine builds) and by 4 MiB inputs on a 64 KiB stack',
                         'both code generators are rendered from one Generator whose only differences are state_transition/state_action/restart; the model has a single interpreter for both']
     return run.finish()
 
